@@ -13,7 +13,7 @@
 //!   p_dur <hex>          => ok D | err | panic | hang   (totality stream)
 //!   lex_i64 <hex>        => ok n | err             (lexical_core::parse::<i64>, the external contract)
 //!   lex_f64 <hex>        => ok <f64 bits> | err    (lexical_core::parse::<f64>)
-//!   unit_mul_f64 U <f64> => ok D                   (Unit * f64)
+//!   txt_unit_mul_f64 U <f64> => ok D                   (Unit * f64)
 use crate::codec::*;
 use crate::rng::Rng;
 use hifitime::{Duration, Unit};
@@ -468,7 +468,7 @@ pub fn exec(op: &str, a: &[&str]) -> Option<String> {
             Ok(v) => format!("ok {}", f2s(v)),
             Err(_) => "err".to_string(),
         }),
-        "unit_mul_f64" => {
+        "txt_unit_mul_f64" => {
             let u: Unit = s2u(a[0]);
             Some(format!("ok {}", d2s(u * s2f(a[1]))))
         }
